@@ -275,3 +275,51 @@ MUTATING_METHODS = {
     'append', 'extend', 'insert', 'pop', 'remove', 'clear', 'update', 'add',
     'discard', 'setdefault', 'popitem', 'sort', 'reverse', 'appendleft',
 }
+
+
+def eval_pred(e: ast.AST, env: dict):
+    """Evaluate a side-effect-free predicate / arithmetic expression over an
+    explicit environment (truth-table evaluation of an *extracted* expression;
+    nothing from the repository is imported or run).  Raises ValueError on any
+    construct outside comparisons, boolean operators, +,-,*, names, constants."""
+    if isinstance(e, ast.Constant):
+        return e.value
+    if isinstance(e, (ast.Name, ast.Attribute)):
+        k = ast.unparse(e)
+        if k in env:
+            return env[k]
+        raise ValueError(f'unbound {k}')
+    if isinstance(e, ast.BoolOp):
+        vals = [eval_pred(v, env) for v in e.values]
+        return all(vals) if isinstance(e.op, ast.And) else any(vals)
+    if isinstance(e, ast.UnaryOp):
+        v = eval_pred(e.operand, env)
+        if isinstance(e.op, ast.Not):
+            return not v
+        if isinstance(e.op, ast.USub):
+            return -v
+    if isinstance(e, ast.BinOp):
+        a, b = eval_pred(e.left, env), eval_pred(e.right, env)
+        if isinstance(e.op, ast.Add):
+            return a + b
+        if isinstance(e.op, ast.Sub):
+            return a - b
+        if isinstance(e.op, ast.Mult):
+            return a * b
+    if isinstance(e, ast.Compare):
+        left = eval_pred(e.left, env)
+        for op, c in zip(e.ops, e.comparators):
+            right = eval_pred(c, env)
+            r = {ast.Eq: lambda x, y: x == y, ast.NotEq: lambda x, y: x != y, ast.Lt: lambda x, y: x < y,
+                 ast.LtE: lambda x, y: x <= y, ast.Gt: lambda x, y: x > y, ast.GtE: lambda x, y: x >= y,
+                 ast.In: lambda x, y: x in y, ast.NotIn: lambda x, y: x not in y,
+                 ast.Is: lambda x, y: x is y, ast.IsNot: lambda x, y: x is not y}.get(type(op))
+            if r is None:
+                raise ValueError(type(op).__name__)
+            if not r(left, right):
+                return False
+            left = right
+        return True
+    if isinstance(e, (ast.Tuple, ast.List, ast.Set)):
+        return tuple(eval_pred(x, env) for x in e.elts)
+    raise ValueError(f'cannot evaluate {type(e).__name__}')
